@@ -1,6 +1,9 @@
 import OW.Props.C16.Conversion
 import OW.Props.C16.Partition
+import OW.Props.C16.LoadGen
+import OW.Props.C16.Sediment
+import OW.Props.C16.Usle
 /-!
 C16 — partition, conversion and generation models satisfy their algebraic identities.
-The theorems live in `OW/Props/C16/{Conversion,Partition,Generation}.lean`.
+The theorems live in `OW/Props/C16/{Conversion,Partition,LoadGen,Sediment,Usle}.lean` (helpers in `OW/Proofs/C16Lemmas.lean`).
 -/
